@@ -1,3 +1,4 @@
+from rtamt.semantics.arithmetic import saturating
 import math
 
 from rtamt import RTAMTException
@@ -250,7 +251,7 @@ def less(a, b):
 
 
 def power(a, b):
-    return math.pow(a, b)
+    return saturating.power(a, b)
 
 
 def log(a, b):
